@@ -468,7 +468,7 @@ pub fn run_inprocess(ops: &[Op]) -> Result<Outcome, Violation> {
             });
             if let Err(p) = alive {
                 // the panic that killed the analyzer thread happened in another thread, silently
-                let cause = lw::PANIC_HISTORY.lock().ok().and_then(|h| h.iter().rev().find(|(_, m)| !m.contains("is_finished") && m.contains("/repo/")).map(|(_, m)| m.clone())).unwrap_or_default();
+                let cause = lw::PANIC_HISTORY.lock().ok().and_then(|h| h.iter().rev().find(|(_, m)| !m.contains("is_finished") && m.contains(&format!("{}/", crate::ev::repo().display()))).map(|(_, m)| m.clone())).unwrap_or_default();
                 let loc = cause.split(" at ").last().unwrap_or("").rsplit('/').next().unwrap_or("").to_string();
                 return Err(Violation {
                     sig: format!("analyzer-died:{kind}:{loc}"),
@@ -711,6 +711,7 @@ pub fn run(ctx: &Ctx) -> i32 {
     for v in out.violations.into_iter().chain(out.known_hits) {
         rep.violation(v);
     }
+    crate::fuzzstage::maybe(ctx, "C20", &mut ev, &mut rep);
     let code = rep.finish(&mut ev);
     ev.write();
     code
